@@ -155,9 +155,13 @@ pub fn uniform(n: usize, klen: usize, vlen: usize) -> Vec<Shape> {
     vec![Shape { klen, vlen }; n]
 }
 
-/// The 40 byte strings of length <= 3 over {0x00, 0x7F, 0xFF}, sorted.
+/// The 40 byte strings of length <= 3 over {0x00, 0x01, 0xFF}, sorted. The alphabet holds two
+/// adjacent bytes (so the byte-successor of a stored key or prefix can itself be stored) and 0xFF
+/// (so successors carry).
+pub const UNIVERSE_ALPHABET: [u8; 3] = [0x00, 0x01, 0xFF];
+
 pub fn universe() -> Vec<Vec<u8>> {
-    let alpha = [0x00u8, 0x7F, 0xFF];
+    let alpha = UNIVERSE_ALPHABET;
     let mut out: Vec<Vec<u8>> = vec![vec![]];
     let mut frontier: Vec<Vec<u8>> = vec![vec![]];
     for _ in 0..3 {
